@@ -150,13 +150,17 @@ def St.clear (st : St V) : St V :=
 
 def T.minSlot : T ε → Option Nat
   | .leaf => none
-  | .node _ .leaf s _ _ => some s
-  | .node _ l@(.node ..) _ _ _ => l.minSlot
+  | .node _ l s _ _ =>
+    match l.minSlot with
+    | some m => some m
+    | none => some s
 
 def T.maxSlot : T ε → Option Nat
   | .leaf => none
-  | .node _ _ s _ .leaf => some s
-  | .node _ _ _ _ r@(.node ..) => r.maxSlot
+  | .node _ _ s _ r =>
+    match r.maxSlot with
+    | some m => some m
+    | none => some s
 
 /-- first ancestor of which the path comes from the left: climb while we are the right child.
 `none` = `EMPTY_REF` (ran off the root). -/
